@@ -477,5 +477,13 @@ Proof.
   split; [exact Pc|]. split; [exact Pcd|].
   apply pos_neq0. apply (olt_ole_trans Ord _ _ _ Pc Pcd).
 Qed.
+Theorem cheby_hypotheses_ordered (hi0 lower higher : S) : olt s0 hi0 -> ole s0 lower -> olt lower higher ->
+  let '(c, d) := cheby_cd c_half hi0 lower higher in
+  c <> s0 /\ d <> s0 /\ @c_two S <> s0 /\ forall k, ole s1 (tau c d k) /\ tau c d k <> s0.
+Proof.
+  intros Hh Hl Hlh. pose proof (cheby_cd_ordered hi0 lower higher Hh Hl Hlh) as H.
+  destruct (cheby_cd c_half hi0 lower higher) as [c d]. destruct H as (Hc & Hcd & Hd).
+  split; [apply pos_neq0, Hc|]. split; [exact Hd|]. split; [exact two_neq0|].
+  intro k. apply tau_nonzero; assumption.
+Qed.
 End ChebyOrd.
-
